@@ -147,3 +147,30 @@ check("C17",
       "as Attributes under both switch settings with argument non-mutation; == / hash are checked on all pairs of 40 parsed lines.",
       TB + "Non-finite numeric strings are outside numeric_sort's domain.",
       "TLA+ state machine (MC_AttrStore on AttrStore) + TLC invariants / alg-vs-decl + spec-generated behaviours and merge cases replayed on the code")
+
+check("C15",
+      "Intervals.tla: Inter_Alg transcribes the running pairwise construction of FeatureDB.interfeatures (re-used dictionary, seqid change, empty-gap suppression), Inter_Decl "
+      "states C15 as a comprehension over consecutive pairs; Introns_Decl / Splice_Decl build on the import model's Children. TLC checks Inter_Alg = Inter_Decl and the N-1 law "
+      "for every ordered list of <= 3 (quick) / 4 (thorough) intervals over 6 positions x 6 seqid/strand/type patterns x 4 option sets (234k states quick); one case in 7/3 is "
+      "replayed through interfeatures (geometry, type, strand, per-key sorted attribute union with numeric sort, joined IDs, update_attributes, inputs and database unchanged); "
+      "random gene models go through create_introns / create_splice_sites against the spec (Gen_Intervals).",
+      TB + "Only the columns and attributes the statement names are compared; transcripts are visited in unspecified order (multiset comparison).",
+      "TLA+ spec (Intervals) + TLC alg-vs-decl over all short interval lists + spec-generated cases replayed on the code + model-computed introns/splice sites for random gene models")
+
+check("C16",
+      "Intervals.tla transcribes FeatureDB.merge as a fold (MergeStep: seed check, unchecked-last-feature branch, copy-on-first-merge with a fresh id from the live counters, "
+      "Absorb) over the ten shipped criteria, and states C16 declaratively: PartitionOK (each input a child of exactly one output or yielded itself, consecutive runs, min/max "
+      "extents, distinct ids), UnionLemma (default criteria on grouped start-ordered input = connected components of overlapping-or-adjacent, computed as a closure), merged "
+      "size = size of the union. TLC checks them for every list of <= 3/4 intervals x 6 patterns x 8 criteria sets (467k states quick). One case in 11/5 is replayed through "
+      "merge() three times on the SAME objects (same criteria twice, then default criteria); children_bp and merge_all (relate / exclude_components) run on random gene "
+      "models and are compared with the model row by row.",
+      TB + "Merged features are compared on the columns the statement names; ids for distinctness.",
+      "TLA+ spec (Intervals) + TLC partition/union lemmas over all short interval lists x criteria + spec-generated cases replayed (repeatedly, on the same objects) + model-computed merge_all databases")
+
+check("C18",
+      "Intervals.tla: LenOf, SeqOf (1-based inclusive slice, reverse complement), Bed12_Alg (field assembly incl. the span checks and thick/thin rules) and Bed12_Decl (the "
+      "statement's constraints on the twelve fields). MC_Bed checks Bed12_Alg against Bed12_Decl for every transcript over 6 positions with 0-2 blocks and 0-1 thick feature "
+      "and the sequence laws on a 12-base reference. Random gene models (incl. transcripts without exon children and ones whose blocks do not span) are run through bed12(id), "
+      "bed12(Feature), convert.to_bed12, len() and Feature.sequence() via a generated FASTA file and pyfaidx, against the model's values (Gen_Intervals).",
+      TB + "pyfaidx is exercised, not modelled.",
+      "TLA+ spec (Intervals) + TLC alg-vs-decl for BED12 and sequence laws + model-computed expectations for random gene models replayed on the code")
